@@ -316,6 +316,8 @@ type verifyOut struct {
 	// error to its Open). Such a crash point is counted and skipped, neither judged nor an
 	// infrastructure failure
 	Trusted string `json:"trusted,omitempty"`
+	// Refused: how many times Badger refused the directory before the database opened
+	Refused int `json:"refused,omitempty"`
 }
 
 func parseCrashLog(path string) (acked []int, classes map[int]string, inflight int, muts []string, done bool) {
@@ -429,8 +431,19 @@ func CrashVerify(caseFile, dir, logPath string) int {
 	// churn racing with its reads
 	c.Seq.World.GCPeriodNs = int64(time.Hour)
 	c.Seq.World.SendDurNs = int64(time.Millisecond)
+	// Badger refuses a directory in which a kill left a memtable file created but not yet sized
+	// (its failed Open sizes the file, the next Open succeeds): the caller of fs_db opens again; what
+	// is judged is the state once the database opens
+	refused := func(e string) bool {
+		return strings.Contains(e, "badger open:") && strings.Contains(e, "while opening memtables")
+	}
 	w := worldAt(dir, c.Seq.World, c.Seq.Sched.Seed+1, false)
 	out.First = readState(w, written)
+	for try := 0; try < 2 && refused(out.First.OpenErr); try++ {
+		out.Refused++
+		w = worldAt(dir, c.Seq.World, c.Seq.Sched.Seed+1, false)
+		out.First = readState(w, written)
+	}
 	w2 := worldAt(dir, c.Seq.World, c.Seq.Sched.Seed+2, false)
 	out.Second = readState(w2, written)
 	if c.Conc != nil {
@@ -439,7 +452,7 @@ func CrashVerify(caseFile, dir, logPath string) int {
 		out.Viol = judgeCrash(c, &out)
 	}
 	for _, e := range []string{out.First.OpenErr, out.Second.OpenErr} {
-		if strings.Contains(e, "badger open:") && strings.Contains(e, "while opening memtables") {
+		if refused(e) {
 			out.Trusted, out.Viol = e, nil
 		}
 	}
@@ -525,7 +538,8 @@ func judgeCrash(c CrashCase, v *verifyOut) *Violation {
 		return nil
 	}
 	var e1 map[string]uint64
-	if v.InFlight >= 0 {
+	if o := v.InFlight; o >= 0 && !(c.Seq.Ops[o].K == "setr" && c.Seq.Ops[o].Shape == "failing") {
+		// (a write whose source fails has no atomically-applied alternative: it never counts)
 		m1 := m.Clone()
 		apply(m1, c.Seq.Ops[v.InFlight])
 		e1 = expected(m1)
@@ -773,10 +787,26 @@ func (propC04) Exec(x any, _ []int32) RunOut {
 					return out
 				}
 			}
+			// the same kill followed by a second death inside Badger's Open of the recovery, between
+			// the creation and the sizing of its next memtable file (the one place where a kill makes
+			// Badger refuse its directory once); the state that leaves is written directly
+			if c.Conc == nil && (n+int(c.Seq.Sched.Seed%3))%3 == 0 {
+				if viol, infra := killInMemtableCreation(base, dir, verify, &out); infra != "" {
+					out.Infra = infra
+					return out
+				} else if viol != nil {
+					viol.Detail = fmt.Sprintf("crash point %d of %d (torn=%v), then %s", n, M, torn, viol.Detail)
+					out.Violation = viol
+					return out
+				}
+			}
 			v, infra := verify(fmt.Sprintf("crash point %d", n))
 			if infra != "" {
 				out.Infra = infra
 				return out
+			}
+			if v.Refused > 0 && v.Trusted == "" {
+				out.Probes["badger-refused-its-directory-then-opened:judged"]++
 			}
 			if v.Trusted != "" {
 				out.Probes["trusted-base:badger-refused-its-own-directory-after-a-kill"]++
@@ -795,6 +825,62 @@ func (propC04) Exec(x any, _ []int32) RunOut {
 	}
 	out.Probes["mutation-points"] = uint64(M)
 	return out
+}
+
+// killInMemtableCreation leaves in the Badger directory of the (already crashed) directory dir
+// what a kill between the creation and the sizing of Badger's next memtable file leaves (a
+// zero-length NNNNN.mem with the next number; observed with real kills under load), and verifies
+// the outcome: Badger refuses the directory once, then the database must open with everything
+// that was acknowledged.
+func killInMemtableCreation(base, dir string, verify func(string) (*verifyOut, string), out *RunOut) (*Violation, string) {
+	snap := filepath.Join(base, "snap-mem")
+	if err := copyDir(dir, snap); err != nil {
+		return nil, "copy: " + err.Error()
+	}
+	defer func() {
+		copyDir(snap, dir)
+		os.RemoveAll(snap)
+	}()
+	ents, err := os.ReadDir(filepath.Join(dir, "db"))
+	if err != nil {
+		return nil, ""
+	}
+	next, have := 0, false
+	for _, e := range ents {
+		if strings.HasSuffix(e.Name(), ".mem") {
+			if n, err := strconv.Atoi(strings.TrimSuffix(e.Name(), ".mem")); err == nil {
+				have = true
+				if n >= next {
+					next = n + 1
+				}
+			}
+		}
+	}
+	if !have {
+		return nil, "" // killed before Badger had a memtable at all
+	}
+	if err := os.WriteFile(filepath.Join(dir, "db", fmt.Sprintf("%05d.mem", next)), nil, 0o666); err != nil {
+		return nil, "memtable file: " + err.Error()
+	}
+	out.Extra++
+	out.Faults["kill-inside-badger-memtable-creation(state written directly)"]++
+	v, infra := verify("kill inside memtable creation")
+	if infra != "" {
+		return nil, infra
+	}
+	if v.Trusted != "" {
+		out.Probes["trusted-base:badger-refused-its-own-directory-after-a-kill"]++
+		return nil, ""
+	}
+	if v.Refused > 0 {
+		out.Probes["badger-refused-its-directory-then-opened:judged"]++
+	}
+	if v.Viol != nil {
+		v.Viol.Signature += ",kill-in-memtable-creation"
+		v.Viol.Detail = fmt.Sprintf("a second death inside Badger's Open of the recovery (memtable %05d.mem created, not sized; Badger refused the directory %d time(s) before it opened): %s", next, v.Refused, v.Viol.Detail)
+		return v.Viol, ""
+	}
+	return nil, ""
 }
 
 // crashInRecovery enumerates every crash point of the recovery of the (already crashed)
